@@ -97,7 +97,7 @@ pub fn make_configs(thorough: bool) -> Vec<Config> {
             for fill in [false, true] {
                 for la in [None, Some(2 * sa.bits)] {
                     for outp in [Some(0usize), Some(8), None] {
-                        let a = BankSrc { name: "a".into(), bits: Some(sa.bits), addr: Some(addr), size: sa.size, outp, fill, labelalign: la };
+                        let a = BankSrc { name: "a".into(), bits: Some(sa.bits), addr: Some(addr as i128), size: sa.size, outp, fill, labelalign: la };
                         out.push(Config { banks: vec![a], order: vec![0] });
                     }
                 }
@@ -214,7 +214,7 @@ pub fn build_prog(cfg: &Config, seq: &[usize]) -> Prog {
             Sym::Align2 => items.push(Item::Align(format!("{}", 2 * bits))),
             Sym::AddrFwd => items.push(Item::Addr(format!("{}", addr + 1))),
             Sym::AddrStart => items.push(Item::Addr(format!("{}", addr))),
-            Sym::AddrEnd => items.push(Item::Addr(format!("{}", addr + b.size.unwrap_or(3) as i64))),
+            Sym::AddrEnd => items.push(Item::Addr(format!("{}", addr + b.size.unwrap_or(3) as i128))),
             Sym::Label => {
                 nlabel += 1;
                 items.push(Item::Label(format!("L{}", nlabel)));
@@ -343,7 +343,7 @@ pub fn run(ctx: &Ctx) -> Report {
         rep.absorb(par_run(per * (addrs.len() * la.len()) as u64, |i, l| {
             let d = decode(i, &[per, addrs.len() as u64, la.len() as u64]);
             let seq = seq_decode(d[0], ka, maxlen);
-            let bank = BankSrc { name: "a".into(), bits: Some(8), addr: Some(addrs[d[1] as usize]), size: None, outp: Some(0), fill: false, labelalign: la[d[2] as usize] };
+            let bank = BankSrc { name: "a".into(), bits: Some(8), addr: Some(addrs[d[1] as usize] as i128), size: None, outp: Some(0), fill: false, labelalign: la[d[2] as usize] };
             let mut items = vec![Item::Bankdef(bank), Item::Bank("a".into())];
             let mut nl = 0;
             for s in &seq {
